@@ -92,6 +92,25 @@ pub mod path {
                 w.healthy ==> (r <==> (w.fs.files.contains_key(resolve(w.fs, self@)) || w.fs.dirs.contains(resolve(w.fs, self@)))),
         { unimplemented!() }
     }
+    /// the path is absolute (does not depend on the working directory or on where a symlink
+    /// holding it lives)
+    pub uninterp spec fn is_abs(p: PathV) -> bool;
+    impl Path {
+        /// realpath(3): an absolute path naming the same file; fails if the file does not exist
+        #[verifier::external_body]
+        pub fn canonicalize(&self, Tracked(w): Tracked<&World>) -> (r: crate::shims::std::io::Result<PathBuf>)
+            ensures
+                r is Ok ==> is_abs(r->Ok_0@) && resolve(w.fs, r->Ok_0@) == resolve(w.fs, self@) && !w.fs.links.contains_key(r->Ok_0@),
+                w.healthy && readable(w.fs, self@) ==> r is Ok,
+        { unimplemented!() }
+        /// stat(2) (follows symbolic links)
+        #[verifier::external_body]
+        pub fn metadata(&self, Tracked(w): Tracked<&World>) -> (r: crate::shims::std::io::Result<crate::shims::std::fs::Metadata>)
+            ensures
+                r is Ok && readable(w.fs, self@) ==> r->Ok_0.spec_len() == bytes_at(w.fs, self@).len(),
+                w.healthy && readable(w.fs, self@) ==> r is Ok,
+        { unimplemented!() }
+    }
     impl PathBuf {
         #[verifier::external_body]
         pub fn new() -> (r: PathBuf) ensures r@.comps.len() == 0 { unimplemented!() }
